@@ -31,6 +31,9 @@ pub(crate) struct ReqSocket {
   ingress_engine: AddressedIngressEngine,
   pending_pipe_senders: ParkingLotMutex<HashMap<usize, PipeMessageSender>>,
   state: ParkingLotMutex<ReqState>,
+  /// Serialises send() calls: the state check, the send and the state update of one call
+  /// happen as a unit with respect to other send() calls on clones of this socket.
+  send_serializer: tokio::sync::Mutex<()>,
   reply_available_notifier: Arc<Notify>,
   pipe_read_to_endpoint_uri: RwLock<HashMap<usize, String>>,
 }
@@ -44,6 +47,7 @@ impl ReqSocket {
       ingress_engine: AddressedIngressEngine::new(max_conn),
       pending_pipe_senders: ParkingLotMutex::new(HashMap::new()),
       state: ParkingLotMutex::new(ReqState::ReadyToSend),
+      send_serializer: tokio::sync::Mutex::new(()),
       reply_available_notifier: Arc::new(Notify::new()),
       pipe_read_to_endpoint_uri: RwLock::new(HashMap::new()),
     }
@@ -118,6 +122,10 @@ impl ISocket for ReqSocket {
         "REQ send: Cleared MORE flag from user-provided message."
       );
     }
+
+    // Of several send() calls racing from different tasks exactly one may pass the state
+    // check below; the others wait here and then find the socket in ExpectingReply.
+    let _send_turn = self.send_serializer.lock().await;
 
     // === LOCK SCOPE 1: Check State ===
     {
